@@ -1,6 +1,6 @@
 """BCP socket client."""
 import json
-from urllib.parse import urlsplit, parse_qs, quote, unquote, urlunparse
+from urllib.parse import urlsplit, quote, unquote, urlunparse
 
 import asyncio
 
@@ -47,30 +47,30 @@ def decode_command_string(bcp_string) -> Tuple[str, dict]:
         kwargs = json.loads(bcp_command.query[5:])
         return bcp_command.path, kwargs
 
-    try:
-        kwargs = parse_qs(bcp_command.query, keep_blank_values=True)
-    except AttributeError:
-        kwargs = dict()
+    kwargs = dict()
+    for pair in bcp_command.query.split('&'):
+        if not pair:
+            continue
+        name, _, raw_value = pair.partition('=')
+        name = unquote(name.replace('+', ' '))
+        if name in kwargs:
+            continue
+        # type prefixes are only recognised on the raw value (the encoder quotes ":" inside strings). unquote once.
+        value = unquote(raw_value.replace('+', ' '))
+        if raw_value.startswith('int:'):
+            kwargs[name] = int(value[4:])
+        elif raw_value.startswith('float:'):
+            kwargs[name] = float(value[6:])
+        elif raw_value.lower() == 'bool:true':
+            kwargs[name] = True
+        elif raw_value.lower() == 'bool:false':
+            kwargs[name] = False
+        elif raw_value == 'NoneType:':
+            kwargs[name] = None
+        else:
+            kwargs[name] = value
 
-    for k, v in kwargs.items():
-        if isinstance(v[0], str):
-            if v[0].startswith('int:'):
-                v[0] = int(v[0][4:])
-            elif v[0].startswith('float:'):
-                v[0] = float(v[0][6:])
-            elif v[0].lower() == 'bool:true':
-                v[0] = True
-            elif v[0].lower() == 'bool:false':
-                v[0] = False
-            elif v[0] == 'NoneType:':
-                v[0] = None
-            else:
-                v[0] = unquote(v[0])
-
-            kwargs[k] = v
-
-    return (bcp_command.path,
-            dict((k, v[0]) for k, v in kwargs.items()))
+    return bcp_command.path, kwargs
 
 
 def encode_command_string(bcp_command, **kwargs) -> str:
@@ -98,7 +98,7 @@ def encode_command_string(bcp_command, **kwargs) -> str:
     json_needed = False
 
     for k, v in kwargs.items():
-        if isinstance(v, (dict, list)):
+        if isinstance(v, (dict, list)) or k == 'json':
             json_needed = True
             break
 
@@ -149,8 +149,10 @@ class AsyncioBcpClientSocket():
             # strip newline
             message = message[0:-1]
 
-            if BYTE_MARKER in message:
-                message, bytes_needed = message.split(BYTE_MARKER)
+            # the marker is only valid as the last parameter of the line (it may also occur inside a json string)
+            head, marker, bytes_needed = message.rpartition(BYTE_MARKER)
+            if marker and bytes_needed.isdigit():
+                message = head
                 bytes_needed = int(bytes_needed)
 
                 raw_bytes = await self._receiver.readexactly(bytes_needed)
@@ -307,8 +309,10 @@ class BCPClientSocket(BaseBcpClient):
             # strip newline
             message = message[0:-1]
 
-            if BYTE_MARKER in message:
-                message, bytes_needed = message.split(b'&bytes=')
+            # the marker is only valid as the last parameter of the line (it may also occur inside a json string)
+            head, marker, bytes_needed = message.rpartition(BYTE_MARKER)
+            if marker and bytes_needed.isdigit():
+                message = head
                 bytes_needed = int(bytes_needed)
 
                 rawbytes = await self._receiver.readexactly(bytes_needed)
